@@ -171,6 +171,17 @@ def eq_cases(ls):
         out.append((["fe " + " ".join(t1 + t1 + ["sub", "zero", "eq"])], ["T"], None))
         out.append((["fe " + " ".join(t1 + ["neg"] + [((-v1) % PP).to_bytes(32, "little").hex(), "eq"])], ["T"], None))
         out.append((["fe " + " ".join(t1 + ["sqn:0"] + t1 + ["eq"])], ["T"], None))
+    # elements whose canonical encodings differ by the same mask in two or four 64-bit words (a folded comparison would call them equal)
+    for base in (0, 5, int.from_bytes(pat(5, 0, 31), "little")):
+        for mask in (1, 0xff, 0x0101010101010101, (1 << 62)):
+            for words in ((0, 1), (0, 2), (1, 3), (0, 3), (0, 1, 2, 3)):
+                o = base
+                for w in words:
+                    o ^= mask << (64 * w)
+                if o % PP == base % PP or o >= (1 << 255) - 19 or base >= PP:
+                    continue
+                out.append((["fe %s %s eq" % (le(base).hex(), le(o).hex())], ["F"], None))
+                out.append((["fe %s %s sub isnz" % (le(base).hex(), le(o).hex())], ["T"], None))
     for name, v in (("zero", 0), ("one", 1), ("sqrtm1", curve.SQRTM1), ("d", curve.D), ("d2", 2 * curve.D % PP)):
         out.append((["fe %s bytes" % name], [v.to_bytes(32, "little").hex()], None))
     return out
